@@ -15,6 +15,17 @@
 //	fmt y m d <fmthex> | parse <fmthex> <inputhex> | rt <det> y m d <fmthex>
 //	span months days
 //	rt2 <kind> y m d <fmthex>          (c22.rt only)
+//
+// -extra histgen        : stream c22.hist, PRINTS a seeded operation sequence without running it
+//
+//	(the check replays it with -input in several orders, each order in ONE process, and
+//	every operation alone in a fresh process: results must not depend on the history).
+//	Besides the Date operations above a history contains DateTime operations in
+//	fixed-offset zones (<dt> = y m d H M S ns off, off = seconds east of UTC):
+//
+//	zmk <dt> | zfmt <dt> <fmthex> | zparse <fmthex> <inputhex> | zrt <dt> <fmthex>
+//	zcmp <dt> <dt> | zin <dt> off2 | zaddt <dt> ns | zaddd <dt> months days
+//	tzname off | tzload <namehex>
 package main
 
 import (
@@ -148,6 +159,58 @@ func run(input string) string {
 				return "differs-dts " + enhex(dts.String()) + " " + enhex(q.String())
 			}
 			return "same"
+		case "zmk":
+			return showZ(mkZ(f[1:9]))
+		case "zfmt":
+			s, err := mkZ(f[1:9]).Format(unhex(f[9]))
+			if !err.IsUndefined() {
+				return "err"
+			}
+			return "ok " + enhex(s)
+		case "zparse":
+			p, err := value.ParseDateTime(unhex(f[1]), unhex(f[2]))
+			if !err.IsUndefined() {
+				if isFormatErr(err) {
+					return "err"
+				}
+				return "err-other " + err.Class().Name
+			}
+			return "ok " + showZ(p)
+		case "zrt":
+			dt := mkZ(f[1:9])
+			format := unhex(f[9])
+			s, err := dt.Format(format)
+			if !err.IsUndefined() {
+				return "err-format"
+			}
+			p, err := value.ParseDateTime(format, s)
+			if !err.IsUndefined() {
+				if isFormatErr(err) {
+					return "err"
+				}
+				return "err-other " + err.Class().Name
+			}
+			eq := "ne"
+			if p.Equal(value.Ref(dt)) {
+				eq = "eq"
+			}
+			return "ok " + showZ(p) + " " + eq
+		case "zcmp":
+			return strconv.Itoa(mkZ(f[1:9]).Cmp(mkZ(f[9:17])))
+		case "zin":
+			return showZ(mkZ(f[1:9]).InZone(zoneOf(atoi(f[9]))))
+		case "zaddt":
+			return showZ(mkZ(f[1:9]).AddTimeSpan(value.TimeSpan(atoi(f[9]))))
+		case "zaddd":
+			return showZ(mkZ(f[1:9]).AddDateSpan(value.MakeDateSpan(0, atoi(f[9]), atoi(f[10]))))
+		case "tzname":
+			return enhex(zoneOf(atoi(f[1])).Name())
+		case "tzload":
+			z, err := value.LoadTimezone(unhex(f[1]))
+			if !err.IsUndefined() {
+				return "err"
+			}
+			return fmt.Sprintf("ok %d", value.NewDateTime(2000, 1, 1, 0, 0, 0, 0, 0, 0, z).ZoneOffsetSeconds())
 		case "dtrt":
 			// c22.rt: DateTime default to_string / parse round trip (UTC)
 			dt := value.NewDateTime(atoi(f[1]), atoi(f[2]), atoi(f[3]), atoi(f[4]), atoi(f[5]), atoi(f[6]), 0, 0, atoi(f[7]), value.UTCTimezone)
@@ -163,6 +226,21 @@ func run(input string) string {
 		}
 		return "unknown-op"
 	})
+}
+
+// fixed-offset zone as Timezone.from_offset creates it
+func zoneOf(off int) *value.Timezone {
+	return value.NewTimezoneFromOffset(value.TimeSpan(off) * value.Second)
+}
+
+func mkZ(f []string) *value.DateTime {
+	return value.NewDateTime(atoi(f[0]), atoi(f[1]), atoi(f[2]), atoi(f[3]), atoi(f[4]), atoi(f[5]), 0, 0, atoi(f[6]), zoneOf(atoi(f[7])))
+}
+
+// civil fields, zone offset (seconds east) and the instant (unix seconds)
+func showZ(t *value.DateTime) string {
+	return fmt.Sprintf("%d %d %d %d %d %d %d %d %d", t.Year(), t.Month(), t.Day(), t.Hour(), t.Minute(), t.Second(),
+		t.NanosecondsInSecond(), t.ZoneOffsetSeconds(), t.UnixSeconds())
 }
 
 // ---------------------------------------------------------------- generators
@@ -476,10 +554,219 @@ func genCaseRT(r *hx.Rng) string {
 	return fmt.Sprintf("rt2 %s %d %d %d %s", t.kind, y, m, d, enhex(t.format))
 }
 
+// ---------------------------------------------------------------- c22.hist: operation histories
+
+// The zone offsets of one history: a small pool of magnitudes (whole, half and quarter hour
+// zones of the real world -12:00..+14:00, plus arbitrary minute offsets below 24 h); every
+// operation draws a magnitude from the pool and a sign, so that the same magnitude occurs
+// with both signs, in seeded order, many times within one process.
+type histGen struct {
+	r    *hx.Rng
+	mags []int // seconds
+}
+
+var worldMinutes = []int{0, 30, 45, 0, 0, 15}
+
+func newHistGen(r *hx.Rng) *histGen {
+	g := &histGen{r: r}
+	n := r.Range(4, 14)
+	for i := 0; i < n; i++ {
+		var m int
+		switch r.Below(6) {
+		case 0:
+			m = r.Range(1, 23*60+59) * 60
+		case 1:
+			m = hx.Pick(r, []int{3600, 12 * 3600, 14 * 3600, 13*3600 + 45*60, 9*3600 + 30*60, 5*3600 + 45*60, 3*3600 + 30*60, 23*3600 + 59*60, 60, 0})
+		default:
+			m = (r.Range(0, 14)*60 + hx.Pick(r, worldMinutes)) * 60
+		}
+		g.mags = append(g.mags, m)
+	}
+	return g
+}
+
+func (g *histGen) off() int {
+	m := hx.Pick(g.r, g.mags)
+	if g.r.Chance(1, 2) {
+		return -m
+	}
+	return m
+}
+
+func (g *histGen) dt() string {
+	r := g.r
+	y, m, d := genDate(r)
+	if r.Chance(1, 2) {
+		y = r.Range(-30, 2500)
+		if d > dim(y, m) {
+			d = dim(y, m)
+		}
+	}
+	// keep clear of the ends of the Date range: zone conversion may move the day
+	if y <= minYear+1 {
+		y = minYear + 2
+	}
+	if y >= maxYear-1 {
+		y = maxYear - 2
+	}
+	if d > dim(y, m) {
+		d = dim(y, m)
+	}
+	H, M, S := r.Range(0, 23), r.Range(0, 59), r.Range(0, 59)
+	if r.Chance(1, 4) {
+		H, M, S = hx.Pick(r, []int{0, 23}), hx.Pick(r, []int{0, 59}), hx.Pick(r, []int{0, 59})
+	}
+	ns := hx.Pick(r, []int{0, 0, 1, 999999999, 123000000, r.Range(0, 999999999)})
+	return fmt.Sprintf("%d %d %d %d %d %d %d %d", y, m, d, H, M, S, ns, g.off())
+}
+
+var zDateFmts = []string{"%Y-%m-%d", "%F", "%Y%m%d", "%d/%m/%Y", "%Y-%j", "%-d.%-m.%-Y", "%_Y %_m %_d"}
+var zTimeFmts = []string{"%H:%M:%S", "%T", "%H%M%S", "%R", "%H:%M:%S.%9N", "%T.%L", "%H:%M:%S.%N", "%_H:%_M:%_S", "%-H:%-M:%-S"}
+var zSeps = []string{" ", "T", "", " at ", "_"}
+
+func (g *histGen) format() string {
+	r := g.r
+	if r.Chance(1, 3) {
+		return value.DefaultDateTimeFormat
+	}
+	z := "%:z"
+	if r.Chance(1, 2) {
+		z = "%z"
+	}
+	zsep := hx.Pick(r, []string{" ", "", " ", "Z"})
+	if r.Chance(1, 10) {
+		return z + " " + hx.Pick(r, zDateFmts) + hx.Pick(r, zSeps) + hx.Pick(r, zTimeFmts)
+	}
+	return hx.Pick(r, zDateFmts) + hx.Pick(r, zSeps) + hx.Pick(r, zTimeFmts) + zsep + z
+}
+
+// the text of a DateTime under one of the generator's formats, written independently of the
+// implementation (the generator must not run the code under test with zones)
+func ownFormat(format string, f []int) string {
+	y, m, d, H, M, S, ns, off := f[0], f[1], f[2], f[3], f[4], f[5], f[6], f[7]
+	yday := d
+	for i := 1; i < m; i++ {
+		yday += dim(y, i)
+	}
+	sign := "+"
+	if off < 0 {
+		sign, off = "-", -off
+	}
+	rep := strings.NewReplacer(
+		"%Y", fmt.Sprintf("%04d", y), "%-Y", fmt.Sprintf("%d", y), "%_Y", fmt.Sprintf("%4d", y),
+		"%m", fmt.Sprintf("%02d", m), "%-m", fmt.Sprintf("%d", m), "%_m", fmt.Sprintf("%2d", m),
+		"%d", fmt.Sprintf("%02d", d), "%-d", fmt.Sprintf("%d", d), "%_d", fmt.Sprintf("%2d", d),
+		"%j", fmt.Sprintf("%03d", yday), "%F", fmt.Sprintf("%04d-%02d-%02d", y, m, d),
+		"%H", fmt.Sprintf("%02d", H), "%-H", fmt.Sprintf("%d", H), "%_H", fmt.Sprintf("%2d", H),
+		"%M", fmt.Sprintf("%02d", M), "%-M", fmt.Sprintf("%d", M), "%_M", fmt.Sprintf("%2d", M),
+		"%S", fmt.Sprintf("%02d", S), "%-S", fmt.Sprintf("%d", S), "%_S", fmt.Sprintf("%2d", S),
+		"%T", fmt.Sprintf("%02d:%02d:%02d", H, M, S), "%R", fmt.Sprintf("%02d:%02d", H, M),
+		"%9N", fmt.Sprintf("%09d", ns), "%N", fmt.Sprintf("%09d", ns), "%L", fmt.Sprintf("%03d", ns/1000000),
+		"%:z", fmt.Sprintf("%s%02d:%02d", sign, off/3600, off%3600/60), "%z", fmt.Sprintf("%s%02d%02d", sign, off/3600, off%3600/60),
+	)
+	return rep.Replace(format)
+}
+
+func mutateOffset(r *hx.Rng, s string) string {
+	// change the text of the offset: other sign character, out-of-range hours/minutes, missing/extra colon
+	i := strings.LastIndexAny(s, "+-")
+	if i < 0 {
+		return mutate(r, s)
+	}
+	switch r.Below(6) {
+	case 0:
+		return s[:i] + hx.Pick(r, []string{"+", "-", " ", "", "\u2212"}) + s[i+1:]
+	case 1:
+		return s[:i+1] + hx.Pick(r, []string{"24", "23", "99", "2", ""}) + s[min(i+3, len(s)):]
+	case 2:
+		if strings.Contains(s[i:], ":") {
+			return s[:i] + strings.Replace(s[i:], ":", "", 1)
+		}
+		if len(s) >= i+3 {
+			return s[:i+3] + ":" + s[i+3:]
+		}
+	case 3:
+		return s + hx.Pick(r, []string{"0", ":", ":00", " "})
+	case 4:
+		if len(s) > i+3 {
+			return s[:len(s)-2] + hx.Pick(r, []string{"60", "59", "99", "5"})
+		}
+	}
+	return mutate(r, s)
+}
+
+func ints(s string) []int {
+	var out []int
+	for _, x := range strings.Fields(s) {
+		out = append(out, atoi(x))
+	}
+	return out
+}
+
+func (g *histGen) next() string {
+	r := g.r
+	switch r.Below(20) {
+	case 0, 1, 2, 3, 4:
+		return genCase(r) // Date operations (no zones)
+	case 5, 6, 7, 8:
+		dt := g.dt()
+		f := g.format()
+		s := ownFormat(f, ints(dt))
+		switch r.Below(6) {
+		case 0:
+			s = mutateOffset(r, s)
+		case 1:
+			s = mutate(r, s)
+		}
+		return fmt.Sprintf("zparse %s %s", enhex(f), enhex(s))
+	case 9, 10, 11, 12:
+		return fmt.Sprintf("zrt %s %s", g.dt(), enhex(g.format()))
+	case 13, 14:
+		return fmt.Sprintf("zfmt %s %s", g.dt(), enhex(g.format()))
+	case 15:
+		a := g.dt()
+		b := g.dt()
+		if r.Chance(1, 2) {
+			// the same wall clock in another zone of the pool
+			fa := strings.Fields(a)
+			fa[7] = strconv.Itoa(g.off())
+			b = strings.Join(fa, " ")
+		}
+		return fmt.Sprintf("zcmp %s %s", a, b)
+	case 16:
+		return fmt.Sprintf("zin %s %d", g.dt(), g.off())
+	case 17:
+		ns := hx.Pick(r, []int{0, 1, -1, 999999999, 3600000000000, -3600000000000, 86400000000000, -86400000000000,
+			r.Range(-86400*400, 86400*400) * 1000000000, r.Range(-1000000000, 1000000000) * r.Range(0, 3000000)})
+		return fmt.Sprintf("zaddt %s %d", g.dt(), ns)
+	case 18:
+		return fmt.Sprintf("zaddd %s %d %d", g.dt(), r.Range(-40, 40)*r.Below(3), genDays(r)%3000000)
+	}
+	switch r.Below(3) {
+	case 0:
+		return fmt.Sprintf("tzname %d", g.off())
+	case 1:
+		off := g.off()
+		sign := "+"
+		if off < 0 {
+			sign, off = "-", -off
+		}
+		return fmt.Sprintf("tzload %s", enhex(fmt.Sprintf("UTC%s%02d:%02d", sign, off/3600, off%3600/60)))
+	}
+	return fmt.Sprintf("zmk %s", g.dt())
+}
+
 func main() {
 	o := hx.ParseFlags()
 	defer hx.Flush()
 	value.InitGlobalEnvironment()
+	if o.Extra == "histgen" {
+		g := newHistGen(hx.NewRng(o.Seed))
+		for i := 0; i < o.N; i++ {
+			hx.Emit(fmt.Sprintf("h%d", i), g.next(), "-")
+		}
+		return
+	}
 	for i, in := range hx.ReadInputs(o.Input) {
 		hx.Emit(fmt.Sprintf("c%d", i), in, run(in))
 	}
